@@ -10,6 +10,8 @@
    have no theorem here; they are covered by the write -> commit -> new session -> read sweep only. *)
 Require Import PonyV.Base.PyBase PonyV.Model.C07Base PonyV.Model.C07Fmt PonyV.Gen.C07Codec PonyV.Model.C07Codec
                PonyV.Proofs.C07Digits PonyV.Proofs.C07Proofs PonyV.Proofs.C07Timedelta.
+Require PonyV.Model.C07Float PonyV.Proofs.C07Float.
+Require Import PonyV.Model.C07Json PonyV.Proofs.C07Json.
 
 (* decimal printing: int('%d' % n) = n for every natural number *)
 Theorem C07_print_parse : forall n, 0 <= n -> parse_digits (print_nat n) = Some n.
@@ -111,6 +113,38 @@ Print Assumptions C07_interval_time.
 Theorem C07_ora_bool : forall b, ora_bool_sql2py (ora_bool_py2sql b) = b.
 Proof. exact ora_bool_roundtrip. Qed.
 Print Assumptions C07_ora_bool.
+
+(* SQLite stores a timedelta as the double  days + (seconds + microseconds/1e6)/86400.0  and reads it back with timedelta(days=x):
+   bit-exact model over Coq's primitive floats (Model/C07Float.v, tied bit for bit to CPython on every run).  Exact on the completely
+   enumerated sub-domains: every whole-second timedelta with -3 <= days < 3 (518,400 values) and every microsecond value of the first
+   and the last second of day 0 (2 * 10^6 values).  (Proofs/C07FloatSweep.v extends this to -30 <= days < 30 and to three more
+   seconds up to day 20000.)  Beyond 2^52 microseconds it is not exact: Findings/C07.v.  These theorems depend on the kernel's
+   primitive float / int operations, which Print Assumptions lists. *)
+Theorem C07_timedelta_float_whole_seconds : PonyV.Model.C07Float.exact_whole_seconds_3 = true.
+Proof. exact PonyV.Proofs.C07Float.td_float_whole_seconds_exact_3. Qed.
+Print Assumptions C07_timedelta_float_whole_seconds.
+
+Theorem C07_timedelta_float_microseconds : PonyV.Model.C07Float.exact_microseconds_day0 = true.
+Proof. exact PonyV.Proofs.C07Float.td_float_microseconds_exact_day0. Qed.
+Print Assumptions C07_timedelta_float_microseconds.
+
+(* Json and array attributes are stored as text: json.dumps(v, separators=(',', ':'), sort_keys=True, ensure_ascii=False) and read
+   with json.loads.  For every value of the JSON subset null / bool / int / str (any code points, with the escapes) / list / dict:
+   parsing the printed text gives the value back (printer and parser over code-point lists, Model/C07Json.v, both compared with
+   CPython's json on every run; floats are outside this model). *)
+Theorem C07_json_text_roundtrip : forall v, valid_jv v -> loads (dumps v) = Some v.
+Proof. exact loads_dumps. Qed.
+Print Assumptions C07_json_text_roundtrip.
+
+Theorem C07_json_text_prefix : forall v rest, valid_jv v -> ok_rest rest -> parse_value (jcost v) (dumps v ++ rest) = Some (v, rest).
+Proof. exact parse_dumps_prefix. Qed.
+Print Assumptions C07_json_text_prefix.
+
+(* str / LongStr, bytes and int values go to the driver and come back through converters that do not change them (templates) *)
+Theorem C07_identity_transport :
+  (forall s, str_sql2py (str_py2sql s) = s) /\ (forall b, bytes_sql2py (bytes_py2sql b) = b) /\ (forall z, int_sql2py (int_py2sql z) = z).
+Proof. exact identity_transport. Qed.
+Print Assumptions C07_identity_transport.
 
 Example C07_nonvacuous :
   td_str (mk_td (-1) 86399 999999) = [45; 48; 58; 48; 58; 48; 46; 48; 48; 48; 48; 48; 49]
